@@ -1,13 +1,58 @@
 pub mod c01;
+pub mod c02;
+pub mod c03;
+pub mod c07;
+pub mod c08;
+pub mod c09;
+pub mod c19;
 
 use crate::common::Ctx;
 
-pub fn run(ctx: &Ctx, _args: &[String]) -> i32 {
+pub fn run(ctx: &Ctx, args: &[String]) -> i32 {
+    let _ = args;
     match ctx.prop.as_str() {
         "C01" => c01::run(ctx),
+        "C02" => c02::run_c02(ctx),
+        "C06" => c02::run_c06(ctx),
+        "C07" => c07::run(ctx),
+        "C08" => c08::run(ctx),
+        "C09" => c09::run(ctx),
+        "C19" => c19::run(ctx),
+        "C03" => c03::run_c03(ctx),
+        "C17" => c03::run_c17(ctx),
+        "selfcheck" => selfcheck(ctx),
         other => {
             println!("INCONCLUSIVE property={} reason=no such check", other);
             2
         }
+    }
+}
+
+/// Oracle / reference-renderer self-checks against Aseprite-rendered PNGs.
+pub fn selfcheck(ctx: &Ctx) -> i32 {
+    let mut bad = 0;
+    match crate::blendscan::oracle_selfcheck(ctx) {
+        Ok(v) => println!("oracle self-check: {}", v),
+        Err(e) => {
+            println!("oracle self-check FAILED: {}", e);
+            bad += 1;
+        }
+    }
+    match crate::corpus::refrender_vs_reference_pngs(ctx) {
+        Ok((files, px, mm, list)) => {
+            println!("reference renderer vs Aseprite PNGs: {} frame images, {} pixels, {} mismatches {:?}", files, px, mm, list);
+            if mm != 0 || files < 30 {
+                bad += 1;
+            }
+        }
+        Err(e) => {
+            println!("reference renderer self-check FAILED: {}", e);
+            bad += 1;
+        }
+    }
+    if bad == 0 {
+        0
+    } else {
+        2
     }
 }
